@@ -79,8 +79,18 @@ def search(pid, tier, seed, escalate, hints):
     flavours = ['plain', 'schedule', 'plain', 'stop', 'lock', 'control']
     hinted = [h['scenario'] for h in (hints or []) if isinstance(h, dict) and 'scenario' in h]
     todo = [hs for hs in hinted for _ in range(4)]          # the scenarios on which a model and the code disagree, four re-expressions each
-    for i in range(n + len(todo)):
+    n2 = (100 if tier == 'quick' else 900) * (2 if escalate else 1)
+    for i in range(n + len(todo) + n2):
         sc = copy.deepcopy(todo[i]) if i < len(todo) else scen.gen_scenario(rng, flavours[i % len(flavours)])
+        if i >= len(todo) + n:
+            # a second class: one position-based rule (or disjoint time windows), the controlled run repeated after a reset with the
+            # same control objects; in the re-expressed scenario the second set of initial conditions is written in other units than
+            # the first (state kept by a rule or a sensor across the reset shows then)
+            sc = scen.gen_scenario(rng, 'rules')
+            first = next((op for op in sc['ops'] if op[0] == 'run'), None)
+            if first is None or not first[3]:
+                continue
+            sc['ops'] = sc['ops'] + [['reset'], ['setinit', sc['pos0'], sc['spd0']], ['run', first[1], first[2], first[3], first[4]]]
         sc2 = walk(rng, copy.deepcopy(sc), cyc)
         sc2['load'] = load_reexpress(rng, sc['load'])
         for op in sc2['ops']:
